@@ -270,17 +270,23 @@ ImportInto(db, ctr, fs, cfg) ==
   ELSE LET s == GffFold([st |-> "ok", db |-> db, ctr |-> ctr], fs, cfg) IN
        IF s.st = "raise" THEN s ELSE [s EXCEPT !.db = CloseLevel2(s.db)]
 
+\* id_spec not given: the default of the importer that is used ("ID" / {gene: gene_id, transcript: transcript_id})
+DefaultSpec(importer, cfg) == IF importer = "gtf"
+   THEN [kind |-> "dict", map |-> <<<<T_gene, <<[t |-> "attr", k |-> cfg.gkey]>>>>, <<T_transcript, <<[t |-> "attr", k |-> cfg.tkey]>>>>>>]
+   ELSE [kind |-> "list", items |-> <<[t |-> "attr", k |-> T_ID]>>]
+Resolve(cfg, importer) == [cfg EXCEPT !.importer = importer, !.idspec = IF cfg.idspec.kind = "default" THEN DefaultSpec(importer, cfg) ELSE cfg.idspec]
 \* create_db on a fresh file; the handle's live counters are what was persisted
-Create(fs, dirs, dialect, cfg) ==
+Create(fs, dirs, dialect, cfg0) ==
   IF fs = <<>> THEN [st |-> "raise", db |-> EmptyDB, ctr |-> {}]
-  ELSE LET s == ImportInto(EmptyDB, {}, fs, cfg) IN
+  ELSE LET cfg == Resolve(cfg0, cfg0.importer)
+           s == ImportInto(EmptyDB, {}, fs, cfg) IN
        IF s.st = "raise" THEN s
        ELSE LET db == Finalize(s.db, dirs, dialect, s.ctr) IN [st |-> "ok", db |-> db, ctr |-> db.ctrP]
 
 \* FeatureDB.update: identity on an empty source; the importer is chosen by the DATABASE's dialect
 Update(db, ctrL, fs, cfg) ==
   IF fs = <<>> THEN [st |-> "ok", db |-> db, ctr |-> ctrL]
-  ELSE LET s == ImportInto(db, ctrL, fs, [cfg EXCEPT !.importer = IF db.dialect.fmt = "gtf" THEN "gtf" ELSE "gff3"]) IN
+  ELSE LET s == ImportInto(db, ctrL, fs, Resolve(cfg, IF db.dialect.fmt = "gtf" THEN "gtf" ELSE "gff3")) IN
        IF s.st = "raise" THEN s
        ELSE [st |-> "ok", db |-> Finalize(s.db, <<>>, db.dialect, s.ctr), ctr |-> s.ctr]
 
